@@ -4,6 +4,7 @@ CONSTANTS
   Dpbs = {4, 8}
   ResizeSet = {1, 2, 3, 10, 18}
   Geos <- OneGeo
+  GdOnly = FALSE
   MaxSteps = 2
   DevTuneMasterOnly = FALSE
   DevFsckIgnoresFeatDiff = FALSE
